@@ -237,6 +237,8 @@ impl Prop for C18 {
         vec![
             GenSpec::random("gds-values", tier.pick(6_000, 400_000)),
             GenSpec::random("gds-reals", tier.pick(2_000, 200_000)),
+            // markup files of 100..400 KB full of multi-byte characters (block-wise readers / writers), through save -> open
+            GenSpec::random("big-files", tier.pick(24, 600)),
             GenSpec::random("lef-values", tier.pick(4_000, 300_000)),
             GenSpec::random("gds-bytes", tier.pick(1_500, 100_000)),
             // the real gds2json / gds2yaml / markup2gds binaries, built from /repo by ./check for the thorough tier (LVH_BINS)
@@ -258,6 +260,23 @@ impl Prop for C18 {
                     self.gds_value(cx, &lib, *f, via_file);
                 }
                 cx.sample(|| json!({"library": format!("{:?}", lib).chars().take(500).collect::<String>()}));
+            }
+            "big-files" => {
+                let mut lib = GdsLibrary::new("big");
+                for k in 0..3 + cx.rng.usize(4) {
+                    let mut st = gds21::GdsStruct::new(format!("s{}", k));
+                    let len = 20_000 + cx.rng.usize(45_000);
+                    let text = String::from_utf8(long_nonascii(&mut cx.rng, len)).unwrap();
+                    st.elems.push(gds21::GdsTextElem { string: text, layer: 1, texttype: 0, xy: gds21::GdsPoint::new(k as i32, 0), ..Default::default() }.into());
+                    lib.structs.push(st);
+                }
+                for (i, f) in fmts.iter().enumerate() {
+                    cx.nontrivial(cx.n * 4 + i as u64 + 0xB16);
+                    self.gds_value(cx, &lib, *f, true);
+                    self.gds_value(cx, &lib, *f, false);
+                }
+                cx.count("big_markup_files");
+                cx.sample(|| json!({"big_file_structs": lib.structs.len()}));
             }
             "gds-reals" => {
                 // many doubles per library: units + a reference per strans
@@ -289,7 +308,30 @@ impl Prop for C18 {
                         g.lib.clone()
                     }
                 };
-                let h = crate::rt::prng::strhash(&text);
+                // every third library: string fields that LOOK like another markup type (numbers in other radices, infinities, booleans, nulls,
+                // dates, sexagesimals, tags, anchors): a loader that lets the markup's own typing decide changes them
+                let mut lib = lib;
+                if cx.n % 3 == 1 {
+                    const LOOKALIKES: &[&str] = &[
+                        "0o17", "0b1010", "+0x1F", "0x1F", "0777", "1_000", "1e3", "+.inf", "-.INF", ".nan", ".NaN", "~", "null", "Null", "true", "True", "yes", "No", "on", "OFF", "12:30:45", "2001-12-14", "<<", "-", "?",
+                        "!!str", "&a", "*a", "|", ">", "@x", "`x", "[]", "{}", "- a", "a: b", "1.50", "-0", "+1", "0.", ".5", "1e400", "18446744073709551616", "\\u0041", "\u{feff}x",
+                    ];
+                    for m in lib.macros.iter_mut() {
+                        for pr in m.properties.iter_mut() {
+                            pr.value = cx.rng.pick(LOOKALIKES).to_string();
+                        }
+                        for pin in m.pins.iter_mut() {
+                            for pr in pin.properties.iter_mut() {
+                                pr.value = cx.rng.pick(LOOKALIKES).to_string();
+                            }
+                        }
+                        if cx.rng.chance(1, 4) {
+                            m.name = cx.rng.pick(LOOKALIKES).to_string();
+                        }
+                    }
+                    cx.count("lef_libraries_with_markup_lookalike_strings");
+                }
+                let h = crate::rt::prng::strhash(&format!("{}{}", text, cx.n % 3));
                 for (i, f) in fmts.iter().enumerate() {
                     cx.nontrivial(h ^ i as u64);
                     let via_file = cx.n % 4 == 0;
